@@ -467,7 +467,8 @@ def _computeKeepDeleteIntervals(
             "You cannot specify both 'keepIntervals' or 'deleteIntervals'."
         )
 
-    elif not keepIntervals and not deleteIntervals:
+    elif keepIntervals is None and not deleteIntervals:
+        # no keep list given (an explicitly empty keep list means "keep nothing")
         computedKeepIntervals = [(start, stop)]
         computedDeleteIntervals = []
 
@@ -476,7 +477,7 @@ def _computeKeepDeleteIntervals(
         computedKeepIntervals = utils.invertIntervalList(deleteTimestamps, start, stop)
         computedDeleteIntervals = deleteTimestamps
 
-    elif keepIntervals:
+    else:
         keepTimestamps = [(interval[0], interval[1]) for interval in keepIntervals]
         computedKeepIntervals = keepTimestamps
         computedDeleteIntervals = utils.invertIntervalList(keepTimestamps, start, stop)
